@@ -12,7 +12,7 @@ reg("C20",
     name="C20_delta", src="harness/C20_delta.cpp",
     anchor_files=_ANCHORS,
     quick=dict(defs=dict(NCYC=3, NPRIM=2, NPRIM5=1, NKEYS=2), symx=dict(shards=16, **{"max-wall": 2400, "shard-depth": 3})),
-    thorough=dict(defs=dict(NCYC=3, NPRIM=2, NPRIM5=1, NKEYS=3), symx=dict(shards=16, **{"max-wall": 3000, "shard-depth": 3})),
+    thorough=dict(defs=dict(NCYC=4, NPRIM=2, NPRIM5=1, NKEYS=2), symx=dict(shards=16, **{"max-wall": 3000, "shard-depth": 3})),
     reach=["end", "two_ticks", "gap_then_tick", "key_removed", "key_removed_and_readded_same_cycle", "key_added_and_removed_same_cycle",
            "empty_structural_tick", "child_only_tick", "class_empty_delta_on_valid_collection", "class_unticked_collection_field"],
     bounds="unit level, no graph: two real TSOutputs A (original) and B (copy) of one schema from " + _SHAPES + ", each observed through a bound TSInput; NCYC cycles at "
@@ -29,6 +29,15 @@ reg("C20",
     thorough=dict(defs=dict(NCYC=5, NPRIM=1, NPRIM5=1, NKEYS=2), symx=dict(shards=16, **{"max-wall": 3000, "shard-depth": 3})),
     reach=["end", "two_ticks", "gap_then_tick", "key_removed", "empty_structural_tick", "child_only_tick"],
     bounds="as C20_delta with 5 cycles and one key-set primitive per collection per cycle (longer histories: removal then gap then re-add, several gaps)",
+    outside=_OUTSIDE,
+    )
+
+reg("C20",
+    name="C20_delta_keys3", src="harness/C20_delta.cpp", tiers=("thorough",),
+    anchor_files=_ANCHORS,
+    thorough=dict(defs=dict(NCYC=3, NPRIM=2, NPRIM5=1, NKEYS=3), symx=dict(shards=16, **{"max-wall": 3000, "shard-depth": 3})),
+    reach=["end", "two_ticks", "gap_then_tick", "key_removed", "key_removed_and_readded_same_cycle", "key_added_and_removed_same_cycle", "empty_structural_tick", "child_only_tick"],
+    bounds="as C20_delta with 3 cycles and the key universe {1,2,3} (57 primitive pairs per cycle for the root-level TSS / TSD)",
     outside=_OUTSIDE,
     )
 
